@@ -117,7 +117,8 @@ pub fn plan_sample(plan: &Plan, rep: &Report) -> Value {
 /// distinct/non-trivial keys by the property's rule.
 pub fn account(agg: &mut Agg, job: &Job, sub: u64, plan: &Plan, image: &[u8], rep: &Report) {
     let f = &rep.facts;
-    agg.evals += f.evals.max(1);
+    // C05: every accessor call on a loaded sprite is one evaluation of "returns normally"
+    agg.evals += f.evals.max(1) + if plan.mode == "use" { f.ops_done } else { 0 };
     agg.batch_digest = agg.batch_digest.wrapping_add(mix(&[job.id, sub, f.digest]));
     let changed = image != plan.base.as_slice();
     let outcome_short: String = f.outcome.chars().take(90).collect();
